@@ -223,7 +223,7 @@ def _render(t: V) -> Set[str]:
     return outs
 
 
-@rule("E9", "OPERATOR-FORM: numeric AND/OR/NOT use LAND/LOR/LNOT, everything else is emitted infix in source order, parentheses are kept", ["C01"], floor=12)
+@rule("E9", "OPERATOR-FORM: numeric AND/OR/NOT use LAND/LOR/LNOT, everything else is emitted infix in source order, parentheses are kept", ["C01", "C03"], floor=12, default_props=["C01"])
 def e9(ctx: Ctx):
     I = interp(ctx)
     py = pyfacts(ctx)
@@ -310,7 +310,7 @@ def e9(ctx: Ctx):
         if got != {want}:
             bad.append((digits, flt, sorted(got), want))
     okh = not bad
-    ctx.ob("HexLiteral:threshold", okh, "" if okh else f"&H{bad[0][0]} ({'numeric context' if bad[0][1] else 'integer context'}) is emitted as {bad[0][2]}, expected {bad[0][3]!r}: BASIC09 hexadecimal constants are signed 16-bit integers and end at $7FFF, larger values have to be written in decimal", file="coco/b09/elements.py", line=r[1].lineno)
+    ctx.ob("HexLiteral:threshold", okh, "" if okh else f"&H{bad[0][0]} ({'numeric context' if bad[0][1] else 'integer context'}) is emitted as {bad[0][2]}, expected {bad[0][3]!r}: BASIC09 hexadecimal constants are signed 16-bit integers and end at $7FFF, larger values have to be written in decimal", file="coco/b09/elements.py", line=r[1].lineno, props=["C01", "C03"])  # (hex DATA items go through the same text)
 
 
 def _reaches(p, start: str, target: str) -> bool:
